@@ -50,6 +50,10 @@ func r111(c *Ctx) {
 	for i := 0; i < svc.NumFields(); i++ {
 		f := svc.Field(i)
 		class, ok := serviceFieldClass[f.Name()]
+		if !ok && c.unobservedNewField("Service", f) {
+			c.ob(rule, "Service."+f.Name()+"/new-and-unobserved", f.Pos(), true, false, "a field that does not exist in the reference tree and is read only by new functions: nothing the existing code does depends on it surviving a restart")
+			continue
+		}
 		if !ok {
 			c.note("Service.%s has no persistence class (new field): reported, not a violation by itself", f.Name())
 			c.ob(rule, "Service."+f.Name()+"/classified", f.Pos(), false, false, "a field of Service that is not in the frozen persistence classification {config, runtime, derived, lock}: decide whether it must survive a restart and add it to MarshalJSON/UnmarshalJSON")
